@@ -54,7 +54,7 @@ def matrix(thorough):
         cases.append("HC verify=%s anchor=%s cert=%s" % (verify, anchor, cert))
     for require, ccert in itertools.product("01", ["none", "valid", "untrusted", "expired"]):
         cases.append("HS require=%s ccert=%s" % (require, ccert))
-    cases += ["NC kind=client", "NC kind=listener", "CF kind=noca", "CF kind=mismatch", "CF kind=expired", "CF kind=ok",
+    cases += ["NC kind=client", "NC kind=listener", "NC kind=client-nomode", "NC kind=listener-nomode", "CF kind=noca", "CF kind=mismatch", "CF kind=expired", "CF kind=ok",
               "PP kind=plain", "PP kind=garbage"]
     return cases
 
@@ -130,7 +130,7 @@ def run(ctx):
                        "self-signed, expired, wrong name, wrong CA} x host {name, address} (60 cells); protocol ceilings TLS1.0-1.3 x "
                        "configured minimum {unset,1.0,1.1,1.2,1.3} on both roles (40); peer minimum 1.2/1.3; server side require {on,off} x "
                        "client certificate {none, valid, untrusted, expired} x ceiling {1.2,1.3} (16); HttpClient verify x anchor x "
-                       "certificate (20); HttpServer requireClientCert x client certificate (8); TLS requested without context (client, listener); fail-fast configurations (verify without CA, "
+                       "certificate (20); HttpServer requireClientCert x client certificate (8); TLS requested without a context (TLS off; TLS 'enabled' but the role not selected; client and listener); fail-fast configurations (verify without CA, "
                        "key mismatch, expired server certificate); plaintext and garbage peers. Every cell is a real handshake; an "
                        "intercepting relay looks for the application payload in clear.")
         cov["samples"] = ["outcomes: %s" % sorted(outcomes.items())]
